@@ -34,7 +34,7 @@ K_C17 = kh("c17_strings", ["c17_bytes_view_2", "c17_bytes_get_3", "c17_lines_get
 K_C20 = kh("c20_memory", ["c20_memory_write_read", "c20_memory_rejects"], "quick", 1200)
 K_C15 = kh("c15_list", ["c15_compute_capacity", "c15_eq_distinct_rust", "c15_eq_alias", "c15_eq_distinct_erased_len"], "quick", 1200)
 K_C16 = kh("c16_sched", ["c16_get_vs_push1_linearizable", "c16_len_vs_push1_linearizable"], "quick", 2400) \
-    + kh("c16_sched", ["c16_get_vs_push4_realloc_site1", "c16_get_vs_clone_drop"], "thorough", 5400)
+    + kh("c16_sched", ["c16_get_vs_push4_realloc_site1"], "thorough", 5400)
 THOROUGH_MEM = {"c16_sched::c16_get_vs_push4_realloc_site1": 48}
 
 
@@ -51,19 +51,14 @@ def select(table, tier):
 def kani_part(res, table, known=(), hunt=()):
     """hunt: [(name, timeout_s, mem_gb)] obligations that are only *attempted to refute* in the quick tier"""
     sel = select(table, res.tier)
-    by_to = {}
-    for n, to in sel:
-        by_to.setdefault((to, THOROUGH_MEM.get(n, 16)), []).append(n)
+    items = [(n, to, THOROUGH_MEM.get(n, 16)) for n, to in sel]
     hunt_names = set()
     if res.tier == "quick":
         for n, to, mem in hunt:
             if n not in [x for x, _ in sel]:
-                by_to.setdefault((to, mem), []).append(n)
+                items.append((n, to, mem))
                 hunt_names.add(n)
-    out = []
-    for (to, mem), names in by_to.items():
-        out += K.run_set(res, names, timeout=to, mem_gb=mem, known=known, hunt=hunt_names)
-    return out
+    return K.run_set(res, items, timeout=1800, known=known, hunt=hunt_names)
 
 
 def finish_k(res, results, rule, samples, assumptions):
@@ -90,7 +85,7 @@ TRUST_K = ["rustc/Kani MIR->GOTO translation and CBMC 6.11 (CaDiCaL back end)",
 
 def c02(res):
     r = kani_part(res, K_C02)
-    T.run_tv(res, {"F5", "F11"}, {"value"}, note="lists are shared (copies observe pushes, also inside for); records/enums: construct, copy, mutate one copy, compare, match with guards; field contents symbolic")
+    T.run_tv(res, {"F5", "F11", "F13"}, {"value", "trace"}, note="strings are values; lists are shared (copies observe pushes, also inside for); records/enums: construct, copy, mutate one copy, compare, match with guards; field contents symbolic")
     res.level = "model_checking"
     finish_k(res, r,
              "one Kani harness = one obligation over all symbolic sizes<=2^16 / aligns in {1,2,4,8,16}; non-trivial = all kani::cover! "
@@ -118,20 +113,20 @@ def finish_t(res, assumptions):
 
 
 def c01(res):
-    T.run_tv(res, {"F1", "F2", "F3", "F4", "F8", "F9", "F11"}, {"value"},
+    T.run_tv(res, {"F1", "F2", "F3", "F4", "F8", "F9", "F11", "F12", "F12E"}, {"value"},
              note="returned value of the emitted code == reference value for all arguments on which the reference is defined")
     finish_t(res, T.TRUST_T + ["inputs on which integer division is undefined are excluded here and decided under C10",
                                "float arithmetic compared structurally (same IEEE operation on the same operands), NaNs identified"])
 
 
 def c03(res):
-    T.run_tv(res, {"F6", "F11"}, {"ledger"},
+    T.run_tv(res, {"F6", "F6R", "F11", "F13"}, {"ledger"},
              note="ownership ledger per feasible path: no double drop, no use after drop, no drop of uninitialised memory, nothing live at return")
     finish_t(res, T.TRUST_T + ["host functions take ownership of by-value arguments (mk/eat/peek models in tv.py)"])
 
 
 def c08(res):
-    T.run_tv(res, {"F7", "F7R", "F6", "F11"}, {"trace"},
+    T.run_tv(res, {"F7", "F7R", "F6", "F6R", "F11", "F12E", "F13"}, {"trace"},
              note="sequence of host calls and their argument values == reference trace on every jointly feasible path pair")
     finish_t(res, T.TRUST_T)
 
